@@ -47,6 +47,7 @@ def plan(tier, seed):
         shards.append({'name': 'model-%d' % i, 'fn': 'shard_model', 'args': {'part': i, 'parts': k}, 'death_is_violation': True})
     for i in range(2 if tier == 'quick' else 4):
         shards.append({'name': 'dispatch-history-%d' % i, 'fn': 'shard_dispatch', 'args': {'part': i}})
+    shards.append({'name': 'cli-ratio', 'fn': 'shard_cli', 'args': {}})
     if tier == 'thorough':
         shards.append({'name': 'valgrind', 'fn': 'shard_valgrind', 'args': {}, 'timeout': 5400})
     return shards
@@ -303,6 +304,49 @@ def shard_dispatch(sh, part):
                 sh.check('ratio-forwarded', _bits(got) == _bits(exp), 'dispatched-score!=estimator(these vectors, this ratio)', lambda: {'round': t, 'after_in_place_edit': True, 'got': float(got), 'direct': float(exp)})
         del a, b
     sh.case(('dispatch-history', part), True, 'dispatch-history', sample={'rounds': reps})
+
+
+def shard_cli(sh):
+    """--mi_stratified_sampling_ratio through the command-line entry point: the scores written by the ranking task must be the
+    estimator's scores at exactly that ratio (also for very small ratios), on the category codes of the columns."""
+    import csv
+    import numpy as np
+    import outrank.task_ranking as tr
+    from vf import pipe
+    est, _ = _est()
+    rng, nprng = sh.rng('cli'), sh.nprng('cli')
+    ratios = [0.5, 0.005, 0.3, 0.0125, 0.99] if sh.tier == 'quick' else [0.5, 0.005, 0.3, 0.0125, 0.99, 0.001, 0.75, 0.0099]
+    n = 4000
+    lab = nprng.integers(0, 3, n)
+    cols = {'f_strong': np.where(nprng.random(n) < 0.1, nprng.integers(0, 3, n), lab), 'f_noise': nprng.integers(0, 7, n), 'f_id': nprng.permutation(n) % 900, 'label': lab}
+    header = list(cols)
+    rows = [['v%d' % cols[c][i] for c in header] for i in range(n)]
+    dpath = os.path.join(sh.scratch, 'data')
+    os.makedirs(dpath, exist_ok=True)
+    pipe.write_csv(os.path.join(dpath, 'data.csv'), header, rows)
+    codes = {c: np.array(pipe.codes_sorted([r[j] for r in rows]), dtype=np.int32) for j, c in enumerate(header)}
+    for r in ratios:
+        cr = pipe.fresh_core_ranking()
+        tr.Pool = lambda n_: pipe.SyncPool()
+        tr.estimate_importances_minibatches = cr.estimate_importances_minibatches
+        out_dir = os.path.join(sh.scratch, 'out-%s' % r)
+        flags = {'task': 'ranking', 'data_path': dpath, 'data_source': 'csv-raw', 'output_folder': out_dir, 'subsampling': 1, 'heuristic': 'MI-numba-randomized',
+                 'target_ranking_only': 'True', 'include_cardinality_in_feature_names': 'False', 'disable_tqdm': 'True', 'num_threads': 1, 'mi_stratified_sampling_ratio': r}
+        ok, _ = sh.call('ratio-forwarded', 'outrank.__main__.main', pipe.run_cli, flags)
+        if not ok:
+            continue
+        got = {}
+        with open(os.path.join(out_dir, 'pairwise_ranks.tsv'), newline='') as f:
+            rd = csv.reader(f, delimiter='\t')
+            hdr = next(rd)
+            for row in rd:
+                got[(row[0], row[1])] = float(row[2])
+        for c in header:
+            exp = float(est(codes[c], codes['label'], r, True))
+            g = got.get((c, 'label'))
+            sh.check('ratio-forwarded', g is not None and _bits(g) == _bits(exp), 'cli-score!=estimator-at-the-requested-ratio',
+                     lambda: {'ratio': r, 'feature': c, 'written': g, 'estimator_at_ratio': exp, 'estimator_at_1.0': float(est(codes[c], codes['label'], 1.0, True))})
+        sh.case(('cli-ratio', r), True, 'cli-ratio', sample={'ratio': r, 'scores': {k[0]: v for k, v in got.items() if k[1] == 'label'}})
 
 
 def shard_valgrind(sh):
